@@ -91,7 +91,7 @@ def dispatch (st : St) (i : Nat) (r : Char) : St × Bool :=
     else if isSpace r || r = '\n' then
       let t := parseType st.buf
       ({ st with ctype := t, buf := [], state := if t = .unknown then .needsHash else .needsValue }, false)
-    else (st, false)
+    else ({ st with buf := [], state := .needsHash }, r = '#')   -- any other rune ends the attempt (after the fix); `#` may start a new one
   | .needsValue =>
     if isSpace r then (st, false) else ({ st with state := .readsValue }, true)
   | .readsValue =>
@@ -128,11 +128,12 @@ structure Comment where
   err : List Char := []       -- non-empty iff ctype = invalid : the error class
   deriving DecidableEq, Repr, Inhabited
 
-/-- `strings.SplitN(s, " ", 2)` -/
+/-- `idx := strings.IndexAny(s, " \t")`, `s[:idx]`, `strings.TrimSpace(s[idx:])` (after fix: any whitespace separates
+the time from the match) -/
 def splitFirstSpace : List Char → Option (List Char × List Char)
   | [] => none
   | c :: cs =>
-    if c = ' ' then some ([], cs)
+    if c = ' ' ∨ c = '\t' then some ([], trimSpace (c :: cs))
     else match splitFirstSpace cs with
       | none => none
       | some (a, b) => some (c :: a, b)
